@@ -369,9 +369,22 @@ func faWant(leaves []*faLeaf, holes []faHole, roots map[int]reflect.Value, ident
 		if !ok {
 			continue
 		}
+		isIdent := false
 		for _, id := range idents {
 			if id == h.name && root.Type() != reflect.TypeOf((*ast.Ident)(nil)) {
 				return false // an identifier metavariable stands for a single identifier only
+			}
+			isIdent = isIdent || id == h.name
+		}
+		if !isIdent && !(strings.HasPrefix(h.name, "d") && len(h.name) == 2) && root.CanInterface() {
+			// an expression metavariable stands for an expression: some ast.Expr nodes are none
+			switch n := root.Interface().(type) {
+			case *ast.KeyValueExpr, *ast.Ellipsis:
+				return false // "k: v" element; the "...T" of a variadic parameter, the "..." of [...]T
+			case *ast.CompositeLit:
+				if n.Type == nil {
+					return false // an element whose type is elided: {1} in []T{{1}}
+				}
 			}
 		}
 	}
